@@ -17,12 +17,14 @@
    and its constructor): its model (CompFailSafe.v / FsCompStream.v) is parametric in brotli's
    decoder step function; the theorems of ArchiveSrcProofs.v are for the combinations
    {no layer, ENCRYPT}.  Definitions only. *)
+From MLA Require Import Limit.
 From MLA Require Import Base Stream EncLayer CompLayer RawLayer LayerStack Blocks Writer Reader Repair
   Format Ecies Archive HeaderStream Run.
 Open Scope N_scope.
 
 Section ArchiveSrc.
   Variables CHUNK TAG BLOCK LIMIT FNMAX CACHE : N.
+  Local Hint Extern 0 Limit => exact LIMIT : typeclass_instances.
   Variables TS TC TA TE : N.
   Variable H : bytes -> bytes.
   Variable dh : bytes -> bytes -> bytes.
